@@ -44,7 +44,9 @@ def gen_and_run(tier, seed):
     # the same lock-step on node classes with user-defined __eq__/__bool__/__len__/__hash__ (both mixins get
     # the same special methods): identity-only code behaves identically, value-based code does not
     nb = len(base)
-    base += [dict(c, adv=gen.ADV_KINDS[i % len(gen.ADV_KINDS)]) for i, c in enumerate(base[:nb]) if i % 4 == 1]
+    # the kind is chosen by a running count: i % n under the selection stride reaches only some residues
+    base += [dict(c, adv=gen.ADV_KINDS[k % len(gen.ADV_KINDS)])
+             for k, c in enumerate([c for i, c in enumerate(base[:nb]) if i % 4 == 1])]
     obs0 = mc.run_impl(base, PROP)
     flat = [o["a"] if isinstance(o, dict) and "a" in o else o for o in obs0]
     sample = list(zip(base, flat))
